@@ -95,6 +95,9 @@ def _transformers():
         ("align_left", lambda c, ctx: cirq.align_left(c, context=ctx)),
         ("align_right", lambda c, ctx: cirq.align_right(c, context=ctx)),
         ("stratified_circuit", lambda c, ctx: cirq.stratified_circuit(c, context=ctx, categories=[cirq.is_measurement, lambda op: len(op.qubits) == 1])),
+        ("stratified_circuit(no categories)", lambda c, ctx: cirq.stratified_circuit(c, context=ctx, categories=[])),
+        ("stratified_circuit(X, H)", lambda c, ctx: cirq.stratified_circuit(c, context=ctx, categories=[cirq.X, cirq.H])),
+        ("stratified_circuit(two-qubit gates)", lambda c, ctx: cirq.stratified_circuit(c, context=ctx, categories=[lambda op: len(op.qubits) == 2])),
         ("optimize_for_target_gateset(CZ)", lambda c, ctx: cirq.optimize_for_target_gateset(c, context=ctx, gateset=cirq.CZTargetGateset())),
         ("optimize_for_target_gateset(sqrt_iswap)", lambda c, ctx: cirq.optimize_for_target_gateset(c, context=ctx, gateset=cirq.SqrtIswapTargetGateset())),
         ("insertion_sort_transformer", lambda c, ctx: cirq.transformers.insertion_sort_transformer(c, context=ctx)),
@@ -301,6 +304,99 @@ def standin_reorder_scenarios(tier, seed):
                 cases=cases, distinct=cases, failures=len(fails), exhaustive=True, _fails=uniq[:3])
 standin_reorder_scenarios.prop = "C06"
 STANDINS.append(standin_reorder_scenarios)
+
+
+def standin_reorder_tagged(tier, seed):
+    """the operation-moving transformers with tags_to_ignore: sequences over the same alphabet packed into shared moments (EARLIEST) or
+    one per moment, every non-empty subset of up to 3 operations tagged; the unitary is unchanged and every tagged operation survives"""
+    import itertools
+    import cirq
+
+    rng = random.Random(seed + 23)
+    a, b, c = cirq.LineQubit.range(3)
+    alphabet = [cirq.X(b), cirq.Z(a), cirq.X(a) ** 0.5, cirq.CNOT(a, b), cirq.CNOT(b, a), cirq.CZ(a, b), cirq.CNOT(b, c), cirq.CNOT(c, b), cirq.ISWAP(a, c) ** 0.5, cirq.Z(b) ** 0.25, cirq.T(c), cirq.H(c), cirq.H(a)]
+    tfs = [t for t in _transformers() if t[1] is not None and any(k in t[0] for k in ("insertion_sort", "align", "stratified", "synchronize", "merge_operations_to_circuit_op", "merge_moments", "merge_k_qubit_unitaries",
+                                                                                      "merge_single_qubit", "eject", "drop_negligible", "drop_empty"))]
+    ctx = cirq.TransformerContext(tags_to_ignore=("ignore",))
+    cases, fails = 0, []
+    seqs = list(itertools.product(alphabet, repeat=3))
+    rng.shuffle(seqs)
+    seqs = seqs[:(60 if tier == "quick" else 700)] + [tuple(rng.choice(alphabet) for _ in range(rng.randrange(4, 7))) for _ in range(60 if tier == "quick" else 600)]
+    for seq in seqs:
+        n = len(seq)
+        masks = [m for m in itertools.product((False, True), repeat=n) if 1 <= sum(m) <= 3]
+        for mask in rng.sample(masks, min(len(masks), 3)):
+            ops = [o.with_tags("ignore") if t else o for o, t in zip(seq, mask)]
+            def loose(ops_):
+                # a packing with slack: an operation joins the last moment when its qubits are free there (coin flip), else opens a new one
+                ms = []
+                for o in ops_:
+                    if ms and rng.random() < 0.6 and not any(set(o.qubits) & set(x.qubits) for x in ms[-1]):
+                        ms[-1].append(o)
+                    else:
+                        ms.append([o])
+                return cirq.Circuit(cirq.Moment(m) for m in ms)
+
+            for circ in (cirq.Circuit(ops, strategy=cirq.InsertStrategy.EARLIEST), cirq.Circuit(ops, strategy=cirq.InsertStrategy.NEW), loose(ops), loose(ops)):
+                want = circ.unitary(qubit_order=[a, b, c], qubits_that_should_be_present=[a, b, c])
+                kept_in = sorted(repr(o) for o in circ.all_operations() if "ignore" in o.tags)
+                for name, tf in tfs:
+                    try:
+                        out = tf(circ, ctx)
+                    except Exception:
+                        continue
+                    cases += 1
+                    flat = cirq.Circuit(cirq.decompose(out, keep=lambda op: not isinstance(op.untagged, cirq.CircuitOperation)))
+                    got = flat.unitary(qubit_order=[a, b, c], qubits_that_should_be_present=[a, b, c])
+                    if not cirq.allclose_up_to_global_phase(got, want, atol=1e-6):
+                        fails.append(dict(args=dict(transformer=name, circuit=repr(circ), context=repr(ctx)), failed="meaning-changed", clause=f"{name} with tags_to_ignore: unitary changed (beyond global phase)"))
+                    elif sorted(repr(o) for o in flat.all_operations() if "ignore" in o.tags) != kept_in:
+                        fails.append(dict(args=dict(transformer=name, circuit=repr(circ), context=repr(ctx)), failed="ignored-tag-touched", clause=f"{name}: operations tagged to be ignored were changed or lost"))
+        if len({f["args"]["transformer"] for f in fails}) >= 3:
+            break
+    # moment-wise generated circuits: every moment draws, per free qubit, nothing / a one-qubit gate / a tagged one-qubit gate (plus the
+    # odd two-qubit gate), so that tagged operations share moments with operations of different depth
+    one_q = [cirq.X, cirq.H, cirq.T, cirq.S, cirq.X ** 0.5, cirq.Y ** 0.25]
+    for _ in range(250 if tier == "quick" else 3000):
+        moments = []
+        for _m in range(rng.randrange(3, 7)):
+            mops, free = [], rng.sample([a, b, c], 3)
+            if rng.random() < 0.25:
+                mops.append((cirq.CZ ** 0.5)(free.pop(), free.pop()))
+            for q_ in free:
+                r = rng.random()
+                if r < 0.3:
+                    continue
+                op = rng.choice(one_q)(q_)
+                mops.append(op.with_tags("ignore") if r > 0.7 else op)
+            moments.append(cirq.Moment(mops))
+        circ = cirq.Circuit(moments)
+        want = circ.unitary(qubit_order=[a, b, c], qubits_that_should_be_present=[a, b, c])
+        kept_in = sorted(repr(o) for o in circ.all_operations() if "ignore" in o.tags)
+        for name, tf in tfs:
+            try:
+                out = tf(circ, ctx)
+            except Exception:
+                continue
+            cases += 1
+            flat = cirq.Circuit(cirq.decompose(out, keep=lambda op: not isinstance(op.untagged, cirq.CircuitOperation)))
+            got = flat.unitary(qubit_order=[a, b, c], qubits_that_should_be_present=[a, b, c])
+            if not cirq.allclose_up_to_global_phase(got, want, atol=1e-6):
+                fails.append(dict(args=dict(transformer=name, circuit=repr(circ), context=repr(ctx)), failed="meaning-changed", clause=f"{name} with tags_to_ignore: unitary changed (beyond global phase)"))
+            elif sorted(repr(o) for o in flat.all_operations() if "ignore" in o.tags) != kept_in:
+                fails.append(dict(args=dict(transformer=name, circuit=repr(circ), context=repr(ctx)), failed="ignored-tag-touched", clause=f"{name}: operations tagged to be ignored were changed or lost"))
+        if len({f["args"]["transformer"] for f in fails}) >= 3:
+            break
+    seen, uniq = set(), []
+    for f in fails:
+        if (f["args"]["transformer"], f["failed"]) not in seen:
+            seen.add((f["args"]["transformer"], f["failed"]))
+            uniq.append(f)
+    return dict(function=F + "/*[operation-moving transformers with tags_to_ignore]", case="reorder-tagged",
+                bound=f"{len(seqs)} sequences of 3-6 operations from a 13-operation alphabet on 3 qubits x 3 tag subsets x 4 packings (earliest, one per moment, two with slack) + moment-wise generated circuits of 3-6 moments x {len(tfs)} transformer configurations",
+                cases=cases, distinct=cases, failures=len(fails), exhaustive=False, _fails=uniq[:3])
+standin_reorder_tagged.prop = "C06"
+STANDINS.append(standin_reorder_tagged)
 
 
 def standin_subcircuit_handling(tier, seed):
